@@ -47,6 +47,9 @@ type op struct {
 	// views, WithExtendedRealm(nil) on the shared view for odd ones) and issues the operation through it: view
 	// creation runs concurrently with everything else, and the per-view lock is not shared.
 	Fresh bool `json:"fresh,omitempty"`
+	// Reenter: the consumer of an iteration calls back into the view it is iterating (Delete of an absent filler key,
+	// which needs the view's write access without changing anything, and Has) when it is invoked for the first time
+	Reenter bool `json:"reenter,omitempty"`
 }
 
 func (o op) String() string {
@@ -70,6 +73,9 @@ func (o op) String() string {
 	s += ")"
 	if o.Fresh {
 		s += "*"
+	}
+	if o.Reenter {
+		s += "+reenter"
 	}
 	if o.Yield > 0 {
 		s += fmt.Sprintf("~%d", o.Yield)
@@ -193,6 +199,7 @@ func genProgram(t *rapid.T, minG, maxG, minPer, maxPer, maxOps int, pointOnly bo
 				if rapid.IntRange(0, 3).Draw(t, "stops") == 0 {
 					o.Stop = rapid.IntRange(1, 3).Draw(t, "stop")
 				}
+				o.Reenter = rapid.IntRange(0, 2).Draw(t, "reenter") == 0
 			case "batch":
 				nb := rapid.IntRange(1, 4).Draw(t, "nbatch")
 				for j := 0; j < nb; j++ {
@@ -392,6 +399,18 @@ func execute(p program) runResult {
 			calls := 0
 			var err error
 			h.OutKeys = []string{}
+			reenterErr := ""
+			reenter := func() {
+				if !o.Reenter || calls != 1 {
+					return
+				}
+				if e := st.Delete([]byte("zreenter")); e != nil {
+					reenterErr = "Delete from inside the consumer: " + e.Error()
+				}
+				if _, e := st.Has([]byte("zreenter")); e != nil {
+					reenterErr = "Has from inside the consumer: " + e.Error()
+				}
+			}
 			h.Call = clock.Tick()
 			if o.Kind == "iterate" {
 				h.OutVals = []int{}
@@ -402,6 +421,7 @@ func execute(p program) runResult {
 					calls++
 					h.OutKeys = append(h.OutKeys, hex.EncodeToString(k))
 					h.OutVals = append(h.OutVals, valID(v))
+					reenter()
 					return o.Stop == 0 || calls < o.Stop
 				}, dirs...)
 			} else {
@@ -411,12 +431,16 @@ func execute(p program) runResult {
 					}
 					calls++
 					h.OutKeys = append(h.OutKeys, hex.EncodeToString(k))
+					reenter()
 					return o.Stop == 0 || calls < o.Stop
 				}, dirs...)
 			}
 			h.Ret = clock.Tick()
 			if err != nil {
 				return nil, fmt.Sprintf("%s: %v", o, err)
+			}
+			if reenterErr != "" {
+				return nil, fmt.Sprintf("%s: %s", o, reenterErr)
 			}
 		case "batch":
 			b, err := st.Batched()
